@@ -242,11 +242,30 @@ def run(ctx):
             r = ranges.Range(text)
         except Exception:
             continue
-        for v in int_probes(rng, items):
+        probes = int_probes(rng, items)
+        if rng.random() < 0.3:
+            rng.shuffle(probes)  # acceptance must not depend on the order in which values are validated
+        for v in probes:
             try:
                 r.validate("value", v)
             except ranges.errors.RangeValueError:
                 pass
+        if i % 4 == 0:
+            # descriptions that look alike (other letter case, other spacing) are different descriptions: each is
+            # constructed and probed in the same process, so that nothing remembered under a coarse key can leak
+            for variant in (text.swapcase(), text.upper(), text.lower(), " ".join(text.split()), text.replace(" ", "")):
+                if variant == text:
+                    continue
+                try:
+                    other = ranges.Range(variant)
+                except Exception:
+                    continue
+                for v in probes[:12]:
+                    try:
+                        other.validate("value", v)
+                    except ranges.errors.RangeValueError:
+                        pass
+                ctx.count("look-alike-descriptions")
     for i in range(n_dec):
         if not ctx.mine(i):
             continue
